@@ -212,14 +212,12 @@ Proof.
         intros _. split; [|reflexivity]. intros _. exists (a / p_period cfg + 1). unfold a in *. lia.
 Qed.
 
-Lemma sched_run cfg s e0 : valid_cfg cfg -> e0 <= p_start cfg ->
+Lemma sched_run cfg s e0 prov0 last0 : valid_cfg cfg -> sched_inv cfg prov0 last0 (e0 - 1) s ->
   forall n e, e = e0 + Z.of_nat n - 1 -> all_ok cfg s (consec e0 n) ->
-  sched_inv cfg (s_prov s) (s_last s) e (run cfg s (consec e0 n)).
+  sched_inv cfg prov0 last0 e (run cfg s (consec e0 n)).
 Proof.
-  intros V He0. induction n as [|n IH]; intros e He Hok.
-  - cbn [consec map seq run]. unfold sched_inv.
-    assert (H : e < p_start cfg) by lia.
-    rewrite (proj2 (Z.ltb_lt _ _) H). split; reflexivity.
+  intros V Hinit. induction n as [|n IH]; intros e He Hok.
+  - cbn [consec map seq run]. replace e with (e0 - 1) by lia. exact Hinit.
   - rewrite consec_S in *. apply all_ok_app in Hok. destruct Hok as [Hok1 Hok2].
     specialize (IH (e - 1) ltac:(lia) Hok1). rewrite run_app. cbn [run].
     cbn [all_ok] in Hok2. destruct Hok2 as [Hc _].
@@ -230,9 +228,25 @@ Proof.
     replace (e - 1 + 1) with e in R by lia. exact R.
 Qed.
 
+(* where a history of consecutive epochs may begin: no later than the start epoch, or within the first period after
+   it with the marker sitting on the start epoch (a chain whose start epoch is 0 and whose first epoch is 1) *)
+Definition history_start_ok (cfg : config) (s : state) (e0 : Z) : Prop :=
+  e0 <= p_start cfg \/ (p_start cfg < e0 <= p_start cfg + p_period cfg /\ s_last s = p_start cfg).
+
+Lemma history_start_inv cfg s e0 :
+  valid_cfg cfg -> history_start_ok cfg s e0 -> sched_inv cfg (s_prov s) (s_last s) (e0 - 1) s.
+Proof.
+  intros V [H|[H Hl]]; unfold sched_inv.
+  - assert (Hlt : e0 - 1 < p_start cfg) by lia. rewrite (proj2 (Z.ltb_lt _ _) Hlt). split; reflexivity.
+  - assert (Hge : p_start cfg <= e0 - 1) by lia. rewrite (proj2 (Z.ltb_ge _ _) Hge).
+    assert (Hk : reductions_until cfg (e0 - 1) = 0).
+    { unfold reductions_until. apply Z.div_small. lia. }
+    rewrite Hk. cbn [Z.to_nat iter_reduce]. split; [lia|reflexivity].
+Qed.
+
 (* the provision is multiplied by the factor at the epochs start + k*period (k >= 1) and at no other *)
 Theorem reduction_exactly_at cfg s e0 n :
-  valid_cfg cfg -> e0 <= p_start cfg -> all_ok cfg s (consec e0 (S n)) ->
+  valid_cfg cfg -> history_start_ok cfg s e0 -> all_ok cfg s (consec e0 (S n)) ->
   let e := e0 + Z.of_nat n in
   let before := run cfg s (consec e0 n) in
   let after := run cfg s (consec e0 (S n)) in
@@ -244,7 +258,8 @@ Theorem reduction_exactly_at cfg s e0 n :
 Proof.
   intros V He0 Hok e before after Hs.
   rewrite consec_S in Hok. apply all_ok_app in Hok. destruct Hok as [Hok1 Hok2].
-  pose proof (sched_run cfg s e0 V He0 n (e - 1) ltac:(unfold e; lia) Hok1) as Inv. fold before in Inv.
+  pose proof (sched_run cfg s e0 _ _ V (history_start_inv cfg s e0 V He0) n (e - 1) ltac:(unfold e; lia) Hok1) as Inv.
+  fold before in Inv.
   cbn [all_ok] in Hok2. destruct Hok2 as [Hc _]. fold before in Hc. fold e in Hc.
   assert (Hafter : after = fst (step cfg before (true, e))).
   { unfold after. rewrite consec_S, run_app. reflexivity. }
